@@ -184,7 +184,28 @@ def rw_sets(ctx, b):
         if isinstance(a.dst, X.ExprMem):
             rd |= names_of(a.dst.arg.get_r(mem_read=True), X)
         wr |= names_of(a.get_w(), X)
-    return rd, wr, ins.m.name
+    cells = [(irsem.to_neutral(w.arg), w.size) for a in lst for w in a.get_w() if isinstance(w, X.ExprMem)]
+    return rd, wr, ins.m.name, cells
+
+
+def written_cells(cells, regs, fl, img):
+    """byte addresses covered by the memory destinations of get_w(), evaluated in the base state (None if not evaluable)"""
+    ids = dict(regs)
+    for f in FLG:
+        ids[f] = fl[f]
+    for sname in ('cs', 'ds', 'es', 'ss', 'fs', 'gs', 'dr7', 'cr0', 'tf', 'i_f', 'nt', 'rf', 'vm', 'ac', 'vif', 'vip', 'i_d', 'iopl_f'):
+        ids[sname] = 0
+    ids['eip'] = cpu.ENTRY
+    env = irsem.Env(ids, {cpu.WIN + i: img[i] for i in range(256)}, 0)
+    cov = set()
+    for ad, size in cells:
+        try:
+            a = irsem.ev_int(ad, env) & 0xffffffff
+        except Exception:
+            return None
+        for i in range(size // 8):
+            cov.add((a + i) & 0xffffffff)
+    return cov
 
 
 def form_case(ctx, part, line, b, fpsse, tier):
@@ -197,7 +218,7 @@ def form_case(ctx, part, line, b, fpsse, tier):
     if rw is None:
         part.skip('not decoded')
         return
-    rd, wr, mname = rw
+    rd, wr, mname, cells = rw
     mn = line.split()[0]
     mnc = re.sub(r'^(set|cmov|j|fcmov)(o|no|b|ae|e|ne|be|a|s|ns|p|np|l|ge|le|g|nb|nbe|u|nu)$', r'\1cc', mn)
     sigbase = '%s/%s' % (mnc, c04.opform(line))
@@ -227,6 +248,15 @@ def form_case(ctx, part, line, b, fpsse, tier):
             if name not in wr:
                 missing_w.setdefault(k if not re.match(r'(float_st|mm|xmm)\d', k) else re.sub(r'\d', 'N', k), 'base state: %s changes (%s -> %s) but get_w() = %s' % (
                     k, str(pre0[k])[:40], str(post0[k])[:40], sorted(wr)))
+        # cell level: every byte of the data window the processor changed lies inside a memory destination of get_w()
+        changed = [i for i in range(256) if res[0]['mem'][i] != img[i]]
+        if changed and 'dst' not in und and not fpsse:
+            cov = written_cells(cells, regs, fl, img)
+            if cov is not None:
+                out = [i for i in changed if (cpu.WIN + i) not in cov]
+                if out:
+                    missing_w.setdefault('mem-cell', 'base state: the processor changes the byte at window+%d (%#x) but the memory destinations of get_w() cover %s' % (
+                        out[0], cpu.WIN + out[0], sorted(hex(x) for x in cov)[:8]))
         for (loc, ch), r1 in zip(P, res[1:]):
             if r1['sig'] != cpu.SIGTRAP:
                 continue
